@@ -175,8 +175,10 @@ impl Cfg {
             0 => {}
             1 => { c.o_neg = fine.max(1); c.s_neg = fine.max(1); }
             2 => { c.o_pos = fine.max(1); c.o_neg = 2 * fine.max(1); c.l_factor = fine.max(1); }
-            _ => { c.o_pos = fine.max(1); c.o_neg = fine.max(1); c.s_pos = fine.max(1); c.s_neg = 2 * fine.max(1);
+            3 => { c.o_pos = fine.max(1); c.o_neg = fine.max(1); c.s_pos = fine.max(1); c.s_neg = 2 * fine.max(1);
                    c.l_factor = 2 * fine.max(1); c.mcf_oi = 0; }
+            // high order fees: a close can cost more than the collateral left
+            _ => { c.o_pos = if d >= 2 { 5 } else { 2 }; c.o_neg = if d >= 2 { 8 } else { 3 }; }
         }
         match ip {
             0 => {}
@@ -484,6 +486,7 @@ fn zero_report() -> Map<String, Value> {
         "in": [0, 0], "out": 0, "out2": 0, "out_long": false, "out2_long": false,
         "cf": [0, 0], "hold": [0, 0], "user": [0, 0], "wd": [0, 0], "sw_out": 0, "minted": 0,
         "remove": false, "dusd": 0, "dtok": 0, "fund": 0, "cdelta": 0, "insolv": "", "wdable": 0,
+        "pnl": 0, "impact": 0, "fee_ex": 0,
         "full": false,
     });
     v.as_object().unwrap().clone()
@@ -813,6 +816,9 @@ impl<const D: u8> World<D> {
                     r.insert("dtok".into(), json!(*rep.size_delta_in_tokens()));
                     r.insert("fund".into(), json!(*rep.fees().funding_fees().amount()));
                     r.insert("wdable".into(), json!(*rep.withdrawable_collateral_amount()));
+                    r.insert("pnl".into(), json!(*rep.pnl().pnl()));
+                    r.insert("impact".into(), json!(*rep.price_impact_value()));
+                    r.insert("fee_ex".into(), json!(rep.fees().total_cost_excluding_funding().unwrap_or(0)));
                     r.insert("insolv".into(), json!(rep.insolvent_close_step().map(|s| format!("{s:?}")).unwrap_or_default()));
                     r.insert("full".into(), json!(full));
                 });
@@ -947,7 +953,8 @@ fn gen_price<const D: u8>(w: &World<D>, rng: &mut Rng, long_is_index: bool) -> V
     let ispread = if rng.chance(1, 4) { 1 } else { 0 };
     let lmin = if long_is_index { imin } else { walk(rng, w.px.lmin, 6, 14) };
     let lspread = if long_is_index { ispread } else if rng.chance(1, 5) { 1 } else { 0 };
-    let smin = w.px.smin;
+    // the short token is mostly stable; now and then it moves (collateral of short-token positions loses / gains value)
+    let smin = if rng.chance(1, 10) { walk(rng, w.px.smin, 1, 3) } else { w.px.smin };
     let sspread = if rng.chance(1, 12) { 1 } else { 0 };
     json!({"op": "price", "imin": imin, "imax": imin + ispread, "lmin": lmin, "lmax": lmin + lspread,
            "smin": smin, "smax": smin + sspread})
@@ -1087,7 +1094,7 @@ fn run_random<const D: u8>(a: &Args) {
         let (fp, bp, fe, ip) = (
             *rng.pick(&[0u64, 0, 1, 2, 2, 3, 3, 6, 7, 4]),
             rng.below(5),
-            rng.below(4),
+            rng.below(5),
             rng.below(4),
         );
         // --vi K: every K-th run has virtual inventories (does not consume randomness: the default
